@@ -85,6 +85,12 @@ theorem rinv_reachable (s : St) (h : Reachable s) : RInv s := by
         exact rinv_stop s v (List.mem_of_getElem? hv) ih
       · exact ih
 
+theorem lookup_filter_ne (reg : List (Key × Nat)) (k : Key) : lookup (reg.filter (fun e => e.1 ≠ k)) k = none := by
+  simp only [lookup, Option.map_eq_none_iff, List.find?_eq_none]
+  intro e he
+  have := (List.mem_filter.mp he).2
+  simpa using this
+
 /-! ### lookup-or-create is atomic ⇒ same name, same scheduler -/
 
 theorem lookup_cons (reg : List (Key × Nat)) (k k' : Key) (v : Nat) :
